@@ -21,7 +21,7 @@ func init() {
 	register("utils.naf", func(ctx *Ctx, c Cmd, ev Ev) {
 		s := c.bytes("s")
 		n, w := c.num("n"), c.num("w")
-		out := make([]int, n)
+		out := make([]int, n+c.num("extra")) // a zeroed workspace longer than n: the digits beyond n stay zero
 		defer func() {
 			ev["out"] = out
 			ev["s_after"] = B(s)
